@@ -31,6 +31,7 @@ type HashCase struct {
 	Type   string `json:"type"`   // sendtohub | transfer | batch | call | signerset | boundary
 	Chain  int    `json:"chain"`  // 0 ethereum, 1 bsc, 2 minter
 	Field  int    `json:"field"`  // index into the type's mutator list
+	Name   string `json:"name,omitempty"` // the mutator's name (recorded by the generator; decides when present, so that saved cases survive changes of the list)
 	Seed   int    `json:"seed"`   // picks concrete values
 	Prefix bool   `json:"prefix"` // external sender spelled with 0x
 }
@@ -38,6 +39,17 @@ type HashCase struct {
 var hashTypes = []string{"sendtohub", "transfer", "batch", "call", "signerset", "boundary"}
 
 func genHashCase(t *rapid.T) interface{} {
+	c := genHashCaseRaw(t)
+	if c.Type != "boundary" {
+		chain := []string{"ethereum", "bsc", "minter"}[c.Chain%3]
+		if muts := mutatorsFor(c.Type, chain, nil); len(muts) > 0 {
+			c.Name = muts[c.Field%len(muts)].name
+		}
+	}
+	return c
+}
+
+func genHashCaseRaw(t *rapid.T) *HashCase {
 	return &HashCase{
 		Type:   hashTypes[rapid.IntRange(0, len(hashTypes)-1).Draw(t, "type")],
 		Chain:  rapid.IntRange(0, 2).Draw(t, "chain"),
@@ -131,6 +143,9 @@ func bumpInt(x sdk.Int, base int64, s int) sdk.Int {
 	two := func(k uint, m int64) sdk.Int {
 		return sdk.NewIntFromBigInt(new(big.Int).Mul(new(big.Int).Lsh(big.NewInt(1), k), big.NewInt(m)))
 	}
+	if s < 4 {
+		return x.AddRaw(base + int64(s))
+	}
 	switch s % 8 {
 	case 0:
 		return x.Add(two(32, 1))
@@ -203,6 +218,20 @@ func mutatorsFor(typ, chain string, fx *fixture) []mutator {
 			}},
 			{"ExternalHeight", func(e mtypes.ExternalEvent, s int) { e.(*mtypes.SendToHubEvent).ExternalHeight += uint64(1 + s) }},
 			{"TxHash", func(e mtypes.ExternalEvent, s int) { e.(*mtypes.SendToHubEvent).TxHash = fmt.Sprintf("0x%064x", 777+s) }},
+			{"CosmosReceiver.longer", func(e mtypes.ExternalEvent, s int) {
+				// another account whose (longer) address ends in the same 20 bytes, or a shorter one that is its tail
+				x := e.(*mtypes.SendToHubEvent)
+				base, _ := sdk.AccAddressFromBech32(x.CosmosReceiver)
+				if s%3 == 2 {
+					x.CosmosReceiver = sdk.AccAddress(base[1:]).String()
+					return
+				}
+				pre := make([]byte, 12)
+				for i := range pre {
+					pre[i] = byte(s + i + 1)
+				}
+				x.CosmosReceiver = sdk.AccAddress(append(pre, base...)).String()
+			}},
 		}
 	case "transfer":
 		return []mutator{
@@ -425,6 +454,18 @@ func runHashCase(ci interface{}, rec *pbt.Rec) *pbt.Failure {
 		}
 		muts := mutatorsFor(typ, chain, fx)
 		m := muts[c.Field%len(muts)]
+		if c.Name != "" {
+			found := false
+			for _, x := range muts {
+				if x.name == c.Name {
+					m, found = x, true
+				}
+			}
+			if !found {
+				rec.Label("unknown-mutator-name")
+				return nil
+			}
+		}
 		e1 = baseEvent(typ, chain, c, fx)
 		e2 = cloneEvent(e1)
 		m.f(e2, c.Seed)
